@@ -84,6 +84,10 @@ def run(ctx):
     crosscheck(ctx, "C12.R3", CL + ".importSchemaComponent", "ref_loader.py",
                "importSchemaComponent", CL,
                "derive on first import; flag; replace; gate; register; parse")
+    crosscheck(ctx, "C12.R3", INF + ".createDerivedSchema", "ref_info.py",
+               "createDerivedSchema", None,
+               "the private schema gets its own component registry and type "
+               "table (copies): an import extends this load only")
     crosscheck(ctx, "C12.R5", INF + ".SchemaType.hasComponent", "ref_info.py",
                "hasComponent", INF + ".SchemaType", "membership")
 
